@@ -27,7 +27,7 @@ GC_EVERY = 20
 
 
 def configs(tier, seed):
-    n = 1500 if tier == 'quick' else 30000
+    n = 1500 if tier == 'quick' else 16000
     return [{'name': impl + '-decl', 'impl': impl, 'mode': 'hyp', 'n': n}
             for impl in ('c', 'py')]
 
